@@ -85,7 +85,7 @@ theorem source_expressions (c : Cfg) (payload buflen : Nat) :
     c.bufTooShort buflen = decide (buflen < DNS_MESSAGE_BUFFER_MIN_LENGTH) ∧
     cfg_payload_too_small payload = decide (payload < DNS_MESSAGE_BUFFER_MIN_LENGTH) ∧
     cfg_payload_exceeds_buffer payload buflen = (decide (buflen > 0) && decide (payload > buflen)) :=
-  ⟨Cfg.ups_eq c payload buflen, Cfg.bufTooShort_eq c buflen, rfl, rfl⟩
+  ⟨Cfg.ups_eq c payload buflen, Cfg.bufTooShort_eq c buflen, cfg_payload_too_small_eq payload, cfg_payload_exceeds_buffer_eq payload buflen⟩
 
 /-- a configuration that `check()` accepts never advertises less than 512 octets nor more than a non-zero
     internal buffer holds -/
@@ -94,7 +94,7 @@ theorem checked_payload (c : Cfg) (v p : Nat) (he : c.edns = some (v, p)) (hc : 
   unfold Cfg.check at hc
   rw [he] at hc
   simp only at hc
-  unfold cfg_payload_too_small cfg_payload_exceeds_buffer at hc
+  rw [cfg_payload_too_small_eq, cfg_payload_exceeds_buffer_eq] at hc
   by_cases h1 : p < DNS_MESSAGE_BUFFER_MIN_LENGTH
   · simp [h1] at hc
   · by_cases h2 : c.cfgbuf > 0 ∧ p > c.cfgbuf
